@@ -48,9 +48,7 @@ func verify(c *Ctx, fn *ssa.Function, fc *FuncContract, commutes bool) {
 	fr.entry = st.clone()
 	fr.commute = commutes
 	fr.writeAll = fc.Auto
-	for _, e := range fc.ModMaps {
-		fr.fnModMaps = append(fr.fnModMaps, fr.evalExpr(e, &Env{fr: fr, st: st, old: fr.entry, binds: ghost}).T)
-	}
+	fr.fnModMaps, fr.fnModInner = fr.evalModMaps(fc.ModMaps, fr.entry, ghost, false)
 	for _, e := range fc.ModElems {
 		fr.elemWrite = append(fr.elemWrite, fr.evalExpr(e, &Env{fr: fr, st: st, old: fr.entry, binds: ghost}).T)
 	}
